@@ -1908,8 +1908,11 @@ class BootstrapElectionModel(BaseElectionModel):
             # how many states have lower_q (or more) realizations with GOP victory
             lower_states = np.mean(agg_pred_margin_dist < 0, axis=1) > lower_q
 
-            potential_losses = pred_states - (~lower_states).astype(int)
-            potential_gains = upper_states.astype(int) - pred_states
+            # a contest can only be lost if it is currently predicted for the LHS party and only be gained if it is not;
+            # without the clipping a prediction whose sign disagrees with most of its own draws counts as a negative
+            # loss / gain and puts the lower bound above (or the upper bound below) the point prediction
+            potential_losses = np.clip(pred_states - (~lower_states).astype(int), 0, None)
+            potential_gains = np.clip(upper_states.astype(int) - pred_states, 0, None)
 
         if self.called_contests is not None:
             # if there is a call, there is no uncertainty in the outcome
